@@ -2,6 +2,7 @@ import Compute.Props.Rounding
 import Compute.Lemmas.NormRounding
 import Compute.Model.VecOps
 import Compute.Model.Transforms
+import Compute.Model.GpKernels
 import Mathlib.Analysis.SpecialFunctions.Log.Basic
 /-
 Worst-case rounding-error analysis (standard model, `Lemmas/FlModel.lean`) of the log-domain reductions
@@ -23,7 +24,8 @@ variable {M : FlModel}
 
 /-! ### the libm hypothesis and the `Transc (Fl M)` instance -/
 
-/-- `exp` and `ln` with relative error at most `uf` (explicit hypothesis on `f64::exp`, `f64::ln`). -/
+/-- `exp` and `ln` with relative error at most `uf` for EVERY argument (explicit hypothesis on `f64::exp`,
+`f64::ln`).  PROVISO: `ExpLnStd` is an idealisation — no IEEE `exp` has relative error `≤ uf` below `−745.13` (underflow) or above `709.78` (overflow); at binary64 the computed value can be exactly `0` there.  The underflow-aware variants are in namespace `Cv.Rounding3U` (class `ExpLnUfl`). -/
 class ExpLnStd (M : FlModel) where
   /-- unit roundoff of the library functions -/
   uf : ℝ
@@ -88,6 +90,7 @@ noncomputable scoped instance flTransc [ExpLnStd M] : Transc (Fl M) where
 @[simp] theorem fl_ln_val [ExpLnStd M] (a : Fl M) :
     (Transc.ln a).val = ExpLnStd.lnR (M := M) a.val := rfl
 
+/-- positivity of the idealised library `exp`.  PROVISO: `ExpLnStd` is an idealisation — no IEEE `exp` has relative error `≤ uf` below `−745.13` (underflow) or above `709.78` (overflow); at binary64 the computed value can be exactly `0` there.  The underflow-aware variants are in namespace `Cv.Rounding3U` (class `ExpLnUfl`). -/
 theorem expR_pos [ExpLnStd M] (x : ℝ) : 0 < ExpLnStd.expR (M := M) x := by
   obtain ⟨δ, hδ, h⟩ := ExpLnStd.exp_std (M := M) x
   rw [h]
@@ -511,7 +514,8 @@ instance).  `Σᵢ ŷᵢ` is the exact real sum of the computed entries `ŷᵢ =
 
   `0 < ŷᵢ`  and  `|Σᵢ ŷᵢ − 1| ≤ γ_{n+1}`.
 
-This is the floating-point form of "non-negative numbers that sum to 1". -/
+This is the floating-point form of "non-negative numbers that sum to 1".  PROVISO: `ExpLnStd` is an idealisation — no IEEE `exp` has relative error `≤ uf` below `−745.13` (underflow) or above `709.78` (overflow); at binary64 the computed value can be exactly `0` there.  The underflow-aware variants are in namespace `Cv.Rounding3U` (class `ExpLnUfl`).
+(`softmax_sum_error_ufl`: entries `≥ 0`, same bound on the sum.) -/
 theorem softmax_sum_error [ExpLnStd M] [MaxBot (Fl M)] (x : List (Fl M)) (hne : x ≠ [])
     (h : ((x.length + 1 : Nat) : ℝ) * M.u < 1) :
     (softmax x).length = x.length ∧ (∀ y ∈ softmax x, 0 < y.val) ∧
@@ -674,7 +678,7 @@ theorem logistic_error [ExpLnStd M] (x : Fl M) (h : ((2 : Nat) : ℝ) * M.u < 1)
         linarith
     _ = _ := by ring
 
-/-- the computed logistic is positive (standard model only) -/
+/-- the computed logistic is positive (idealised standard model only).  PROVISO: `ExpLnStd` is an idealisation — no IEEE `exp` has relative error `≤ uf` below `−745.13` (underflow) or above `709.78` (overflow); at binary64 the computed value can be exactly `0` there.  The underflow-aware variants are in namespace `Cv.Rounding3U` (class `ExpLnUfl`). -/
 theorem logistic_pos [ExpLnStd M] (x : Fl M) : 0 < (logistic x).val := by
   obtain ⟨F, G, hF, hG, hv⟩ := logistic_fac x
   rw [hv]
@@ -682,7 +686,7 @@ theorem logistic_pos [ExpLnStd M] (x : Fl M) : 0 < (logistic x).val := by
 
 /-- **Range of the computed `logistic`**: with a monotone rounding function that fixes `1`
 (round-to-nearest does both) the computed value lies in `(0, 1]` for every input — in particular it is
-a valid argument of `logit`. -/
+a valid argument of `logit`.  PROVISO: `ExpLnStd` is an idealisation — no IEEE `exp` has relative error `≤ uf` below `−745.13` (underflow) or above `709.78` (overflow); at binary64 the computed value can be exactly `0` there.  The underflow-aware variants are in namespace `Cv.Rounding3U` (class `ExpLnUfl`).  (`logistic_range_ufl`: `[0, 1]`.) -/
 theorem logistic_range [ExpLnStd M] (hmono : Monotone M.rnd) (h1 : M.rnd 1 = 1) (x : Fl M) :
     0 < (logistic x).val ∧ (logistic x).val ≤ 1 := by
   refine ⟨logistic_pos x, ?_⟩
@@ -696,3 +700,226 @@ theorem logistic_range [ExpLnStd M] (hmono : Monotone M.rnd) (h1 : M.rnd 1 = 1) 
     _ = 1 := h1
 
 end Cv.Rounding3
+
+/-! ## Library functions with gradual underflow (`ExpLnUfl`): the honest variants -/
+
+namespace Cv.Rounding3U
+open Cv Cv.FlModel Cv.Rounding
+open Cv.Rounding3 (Near)
+
+variable {M : FlModel}
+
+/-- `exp` / `powf` WITH GRADUAL UNDERFLOW: `expR x = eˣ(1+δ) + η`, `|δ| ≤ uf`, `|η| ≤ η₀` (`η₀` = half the smallest
+subnormal, `2⁻¹⁰⁷⁵` at `f64`), non-negative, and `≤ 1` on non-positive arguments; `powR` non-negative on positive
+bases.  Unlike `ExpLnStd` (relative error for EVERY argument, which no IEEE `exp` satisfies below `−745.13`) this
+is satisfiable by a real libm on the whole range where `exp` does not OVERFLOW.  Conclusions weaken from `0 <` to
+`0 ≤` and error bounds gain an absolute term. -/
+class ExpLnUfl (M : FlModel) where
+  uf : ℝ
+  uf_nonneg : 0 ≤ uf
+  uf_lt_one : uf < 1
+  eta0 : ℝ
+  eta0_nonneg : 0 ≤ eta0
+  expR : ℝ → ℝ
+  powR : ℝ → ℝ → ℝ
+  exp_ufl : ∀ x : ℝ, ∃ δ η : ℝ, |δ| ≤ uf ∧ |η| ≤ eta0 ∧ expR x = Real.exp x * (1 + δ) + η
+  exp_nonneg : ∀ x : ℝ, 0 ≤ expR x
+  exp_le_one : ∀ x : ℝ, x ≤ 0 → expR x ≤ 1
+  pow_nonneg : ∀ x y : ℝ, 0 < x → 0 ≤ powR x y
+
+/-- a libm that flushes to zero below a threshold `T ≤ 0`: `eˣ` above, `0` below — an instance in which underflow
+really happens (`η₀ = e^T`) -/
+@[reducible] noncomputable def ExpLnUfl.flush (M : FlModel) (T : ℝ) (hT : T ≤ 0) : ExpLnUfl M where
+  uf := 0
+  uf_nonneg := le_refl 0
+  uf_lt_one := by norm_num
+  eta0 := Real.exp T
+  eta0_nonneg := (Real.exp_pos T).le
+  expR := fun x => if x < T then 0 else Real.exp x
+  powR := fun x y => Real.exp (y * Real.log x)
+  exp_ufl := fun x => by
+    by_cases h : x < T
+    · refine ⟨0, -Real.exp x, by simp, ?_, by simp [h]⟩
+      rw [abs_neg, abs_of_pos (Real.exp_pos x)]
+      exact Real.exp_le_exp.mpr h.le
+    · exact ⟨0, 0, by simp, by simpa using (Real.exp_pos T).le, by simp [h]⟩
+  exp_nonneg := fun x => by
+    by_cases h : x < T
+    · simp [h]
+    · simp only [h, if_false]; exact (Real.exp_pos x).le
+  exp_le_one := fun x hx => by
+    by_cases h : x < T
+    · simp [h]
+    · simp only [h, if_false]; exact Real.exp_le_one_iff.mpr hx
+  pow_nonneg := fun x y _ => (Real.exp_pos _).le
+
+scoped instance flLT : LT (Fl M) := ⟨fun a b => a.val < b.val⟩
+noncomputable scoped instance flDecLT : DecidableLT (Fl M) :=
+  fun a b => Classical.propDecidable (a.val < b.val)
+
+/-- `Transc (Fl M)` with the underflowing library functions -/
+noncomputable scoped instance flTranscU [ExpLnUfl M] : Transc (Fl M) where
+  sqrt a := a
+  abs a := ⟨|a.val|⟩
+  exp a := ⟨ExpLnUfl.expR (M := M) a.val⟩
+  ln a := a
+  pow a b := ⟨ExpLnUfl.powR (M := M) a.val b.val⟩
+  sin a := a
+  cos a := a
+  tan a := a
+  floor a := a
+  ceil a := a
+
+@[simp] theorem flU_exp_val [ExpLnUfl M] (a : Fl M) :
+    (Transc.exp a).val = ExpLnUfl.expR (M := M) a.val := rfl
+
+theorem rnd_nonneg' {w : ℝ} (hw : 0 ≤ w) : 0 ≤ M.rnd w := by
+  obtain ⟨δ, hδ, h⟩ := M.std w
+  rw [h]
+  exact mul_nonneg hw (Fac.one_add hδ).pos.le
+
+/-- **range of the computed `logistic` with an underflowing `exp`**: `0 ≤ logistic x ≤ 1` for a monotone rounding
+that fixes `1` (absent OVERFLOW of `exp(−x)`, i.e. `x ≥ −709.78` at `f64`, where the computed value is exactly
+`0`: the bound `0 ≤` is attained in practice, `0 <` is a theorem of the idealised `ExpLnStd` model only) -/
+theorem logistic_range_ufl [ExpLnUfl M] (hmono : Monotone M.rnd) (h1 : M.rnd 1 = 1) (x : Fl M) :
+    0 ≤ (logistic x).val ∧ (logistic x).val ≤ 1 := by
+  have he := ExpLnUfl.exp_nonneg (M := M) (-x.val)
+  have hd : 1 ≤ M.rnd (1 + ExpLnUfl.expR (M := M) (-x.val)) := by
+    rw [← h1]
+    exact hmono (by linarith)
+  constructor
+  · show 0 ≤ M.rnd (1 / M.rnd (1 + ExpLnUfl.expR (M := M) (-x.val)))
+    exact rnd_nonneg' (div_nonneg zero_le_one (by linarith))
+  · show M.rnd (1 / M.rnd (1 + ExpLnUfl.expR (M := M) (-x.val))) ≤ 1
+    have hq : 1 / M.rnd (1 + ExpLnUfl.expR (M := M) (-x.val)) ≤ 1 := by
+      rw [div_le_one (by linarith)]; exact hd
+    calc M.rnd (1 / M.rnd (1 + ExpLnUfl.expR (M := M) (-x.val))) ≤ M.rnd 1 := hmono hq
+      _ = 1 := h1
+
+theorem softmaxArgs_length' [MaxBot (Fl M)] (x : List (Fl M)) : (softmaxArgs x).length = x.length := by
+  simp [softmaxArgs]
+
+/-- **`softmax` with an underflowing `exp`**: the entries are `≥ 0` (entries whose shifted exponential underflows
+are exactly `0`) and — provided the computed sum of exponentials is positive, as it is whenever the term of the
+maximum, `exp(0)`, does not vanish — they still sum to one up to `γ_{n+1}`: the sum-to-one property does not depend
+on the accuracy of `exp` at all. -/
+theorem softmax_sum_error_ufl [ExpLnUfl M] [MaxBot (Fl M)] (x : List (Fl M))
+    (hS : 0 < (softmaxSum x).val) (h : ((x.length + 1 : Nat) : ℝ) * M.u < 1) :
+    (softmax x).length = x.length ∧ (∀ y ∈ softmax x, 0 ≤ y.val) ∧
+      |(vals (softmax x)).sum - 1| ≤ M.γ (x.length + 1) := by
+  have hsm : softmax x = (softmaxArgs x).map fun a => Transc.exp a / softmaxSum x := rfl
+  have hsS : softmaxSum x = ((softmaxArgs x).map Transc.exp).foldl (· + ·) 0 := rfl
+  have hnearS : Near ((1 - M.u) ^ x.length) ((softmaxArgs x).map fun a => (Transc.exp a).val).sum
+      (softmaxSum x).val := by
+    have hp := foldl_pert ((softmaxArgs x).map Transc.exp) (0 : Fl M) 0 [] (Pert.nil 0)
+    simp only [Nat.zero_add, List.nil_append, List.length_map, softmaxArgs_length'] at hp
+    have := Rounding3.Near.of_pert hp (by
+      intro t ht
+      obtain ⟨e, he, rfl⟩ := List.mem_map.mp ht
+      obtain ⟨v, _, rfl⟩ := List.mem_map.mp he
+      exact ExpLnUfl.exp_nonneg _)
+    simpa [vals, List.map_map, Function.comp_def, hsS] using this
+  set args := softmaxArgs x with hargs
+  set Ŝ := softmaxSum x with hŜ
+  set E := (args.map fun a => (Transc.exp a).val).sum with hE
+  refine ⟨by rw [hsm, List.length_map, hargs, softmaxArgs_length'], ?_, ?_⟩
+  · intro y hy
+    rw [hsm] at hy
+    obtain ⟨a, _, rfl⟩ := List.mem_map.mp hy
+    exact rnd_nonneg' (div_nonneg (ExpLnUfl.exp_nonneg _) hS.le)
+  · have h1 : Near (1 - M.u) (args.map fun a => (Transc.exp a).val / Ŝ.val).sum
+        (args.map fun a => (Transc.exp a / Ŝ).val).sum :=
+      Rounding3.Near.sum (1 - M.u) args _ _ (fun a _ =>
+        Rounding3.Near.rnd M (div_nonneg (ExpLnUfl.exp_nonneg (M := M) a.val) hS.le))
+    have hsum : (args.map fun a => (Transc.exp a).val / Ŝ.val).sum = E / Ŝ.val := by
+      rw [hE, ← sum_map_div, List.map_map]; rfl
+    have hvals : (vals (softmax x)).sum = (args.map fun a => (Transc.exp a / Ŝ).val).sum := by
+      rw [hsm]; simp [vals, List.map_map, Function.comp_def]
+    rw [hsum] at h1
+    have h2 : Near ((1 - M.u) ^ x.length) 1 (E / Ŝ.val) := by
+      constructor
+      · rw [mul_one, le_div_iff₀ hS, mul_comm]; exact hnearS.2
+      · rw [div_mul_eq_mul_div, div_le_one hS, mul_comm]; exact hnearS.1
+    have h3 := Rounding3.Near.trans (M.pow_pos' _).le M.one_sub_u_pos.le h2 h1
+    rw [← pow_succ] at h3
+    have hfac : M.Fac (x.length + 1) (vals (softmax x)).sum := by
+      rw [hvals]
+      exact ⟨by simpa using h3.1, h3.2⟩
+    exact hfac.abs_sub_one_le h
+
+/-- one rounding of a non-negative number is at most `(1+u)` times it -/
+theorem rnd_le_of_nonneg' {w : ℝ} (hw : 0 ≤ w) : M.rnd w ≤ w * (1 + M.u) := by
+  obtain ⟨δ, hδ, h⟩ := M.std w
+  rw [h]
+  exact mul_le_mul_of_nonneg_left (by linarith [(abs_le.mp hδ).2]) hw
+
+section kernels
+variable [ExpLnUfl M]
+
+theorem rbf_unfold_u (k : Gp.RBF (Fl M)) (x y : Fl M) :
+    k.fwd x y = Transc.exp ((-(powi (x - y) 2)) / k.denom) * k.var := rfl
+
+/-- the exponent of the RBF kernel is non-positive in rounded arithmetic too -/
+theorem rbf_arg_nonpos (k : Gp.RBF (Fl M)) (x y : Fl M) : ((-(powi (x - y) 2)) / k.denom).val ≤ 0 := by
+  have hsq : ∀ z : Fl M, 0 ≤ (powi z 2).val := by
+    intro z
+    show 0 ≤ M.rnd (1 * M.rnd (z.val * z.val))
+    exact rnd_nonneg' (by have := rnd_nonneg' (M := M) (mul_self_nonneg z.val); linarith)
+  have hden : 0 ≤ k.denom.val := by
+    show 0 ≤ M.rnd (M.rnd ((2 : Nat) : ℝ) * (powi k.ls 2).val)
+    exact rnd_nonneg' (mul_nonneg (rnd_nonneg' (by norm_num)) (hsq _))
+  show M.rnd (-(powi (x - y) 2).val / k.denom.val) ≤ 0
+  obtain ⟨δ, hδ, h⟩ := M.std (-(powi (x - y) 2).val / k.denom.val)
+  rw [h]
+  have : -(powi (x - y) 2).val / k.denom.val ≤ 0 :=
+    div_nonpos_of_nonpos_of_nonneg (neg_nonpos.mpr (hsq _)) hden
+  exact mul_nonpos_of_nonpos_of_nonneg this (Fac.one_add hδ).pos.le
+
+/-- **RBF kernel with an underflowing `exp`**: `0 ≤ k̂ ≤ σ²(1+u)` (for well separated points the computed value is
+exactly `0`; `0 < k̂` is a theorem of the idealised `ExpLnStd` model only) -/
+theorem rbf_range_ufl (k : Gp.RBF (Fl M)) (x y : Fl M) (hv : 0 ≤ k.var.val) :
+    0 ≤ (k.fwd x y).val ∧ (k.fwd x y).val ≤ k.var.val * (1 + M.u) := by
+  have he0 := ExpLnUfl.exp_nonneg (M := M) ((-(powi (x - y) 2)) / k.denom).val
+  have he1 := ExpLnUfl.exp_le_one (M := M) _ (rbf_arg_nonpos k x y)
+  rw [rbf_unfold_u]
+  constructor
+  · exact rnd_nonneg' (mul_nonneg he0 hv)
+  · show M.rnd (ExpLnUfl.expR (M := M) ((-(powi (x - y) 2)) / k.denom).val * k.var.val) ≤ _
+    refine le_trans (rnd_le_of_nonneg' (mul_nonneg he0 hv)) ?_
+    exact mul_le_mul_of_nonneg_right (by nlinarith) (by linarith [M.u_nonneg])
+
+/-- **RBF kernel with an underflowing `exp`, error**: the relative bound of the idealised model plus the absolute
+term `η₀·σ²·(1+u)` -/
+theorem rbf_error_ufl (k : Gp.RBF (Fl M)) (x y : Fl M) (hv : 0 ≤ k.var.val) :
+    ∃ δ ε η : ℝ, |δ| ≤ ExpLnUfl.uf (M := M) ∧ |ε| ≤ M.u ∧ |η| ≤ ExpLnUfl.eta0 (M := M) ∧
+      (k.fwd x y).val =
+        (Real.exp ((-(powi (x - y) 2)) / k.denom).val * (1 + δ) + η) * k.var.val * (1 + ε) := by
+  obtain ⟨δ, η, hδ, hη, he⟩ := ExpLnUfl.exp_ufl (M := M) ((-(powi (x - y) 2)) / k.denom).val
+  obtain ⟨ε, hε, hr⟩ := M.std (ExpLnUfl.expR (M := M) ((-(powi (x - y) 2)) / k.denom).val * k.var.val)
+  refine ⟨δ, ε, η, hδ, hε, hη, ?_⟩
+  rw [rbf_unfold_u]
+  show M.rnd (ExpLnUfl.expR (M := M) ((-(powi (x - y) 2)) / k.denom).val * k.var.val) = _
+  rw [hr, he]
+
+/-- **rational-quadratic kernel with an underflowing `powf`**: `0 ≤ k̂` -/
+theorem rq_nonneg_ufl (k : Gp.RQ (Fl M)) (x y : Fl M) (hv : 0 ≤ k.var.val) (hα : 0 ≤ k.alpha.val) :
+    0 ≤ (k.fwd x y).val := by
+  have hsq : ∀ z : Fl M, 0 ≤ (powi z 2).val := by
+    intro z
+    show 0 ≤ M.rnd (1 * M.rnd (z.val * z.val))
+    exact rnd_nonneg' (by have := rnd_nonneg' (M := M) (mul_self_nonneg z.val); linarith)
+  have hden : 0 ≤ k.denom.val := by
+    show 0 ≤ M.rnd (M.rnd (M.rnd ((2 : Nat) : ℝ) * k.alpha.val) * (powi k.ls 2).val)
+    exact rnd_nonneg' (mul_nonneg (rnd_nonneg' (mul_nonneg (rnd_nonneg' (by norm_num)) hα)) (hsq _))
+  have hB : 0 < ((1 : Fl M) + powi (x - y) 2 / k.denom).val := by
+    show 0 < M.rnd (1 + M.rnd ((powi (x - y) 2).val / k.denom.val))
+    have h1 := rnd_nonneg' (M := M) (div_nonneg (hsq (x - y)) hden)
+    obtain ⟨δ, hδ, h⟩ := M.std (1 + M.rnd ((powi (x - y) 2).val / k.denom.val))
+    rw [h]
+    exact mul_pos (by linarith) (Fac.one_add hδ).pos
+  show 0 ≤ M.rnd (ExpLnUfl.powR (M := M) _ (-k.alpha).val * k.var.val)
+  exact rnd_nonneg' (mul_nonneg (ExpLnUfl.pow_nonneg _ _ hB) hv)
+
+end kernels
+
+end Cv.Rounding3U
